@@ -21,14 +21,27 @@ def tracking_containers(ctx, cls):
         m = ctx.repo.method(cls, name)
         if m is None:
             continue
+        # names that denote the client's resources in this method: the socket parameter, what accept()/authentication/connection
+        # building returns, and whatever is derived from those
+        res = set(A.params(m.node)[1:]) | {"sock", "conn"}
+        changed = True
+        while changed:
+            changed = False
+            for n in A.walk(m.node):
+                if isinstance(n, ast.Assign) and (A.names_loaded(n.value) & res or any(
+                        (A.call_name(c_) or "").endswith(("accept", "_authenticate_and_build_connection")) for c_ in A.calls(n.value))):
+                    for nm in A.names_stored(n):
+                        if nm not in res:
+                            res.add(nm)
+                            changed = True
         for n in A.walk(m.node):
             if isinstance(n, ast.Call) and isinstance(n.func, ast.Attribute) and n.func.attr in ("add", "append"):
                 fld = K.self_attr(n.func.value)
-                if fld:
+                if fld and n.args and A.names_loaded(n.args[0]) & res:
                     out.setdefault(fld, []).append((m, n))
             if isinstance(n, ast.Assign):
                 for t in n.targets:
-                    if isinstance(t, ast.Subscript) and K.self_attr(t.value):
+                    if isinstance(t, ast.Subscript) and K.self_attr(t.value) and A.names_loaded(n.value) & res:
                         out.setdefault(K.self_attr(t.value), []).append((m, n))
     return out
 
@@ -104,6 +117,22 @@ def run(ctx, rep):
                 continue
             f, loop = drains(funcs, fld)
             m, site = sites[0]
+            if f is not None:
+                # the drain comes after the listener is shut: a client accepted between the drain and the shutdown of the listener
+                # would be registered and then never terminated (the second close() returns at the closed-flag test)
+                gcl = ctx.cfg(f, raises=lambda a, k: set())
+                loopn = [n for n in gcl.live if n.kind in ("iter", "for") and getattr(n, "owner", None) is loop]
+                shut = [n for n in gcl.live if n.kind == "stmt" and n.ast is not None and (
+                    A.find_calls(n.ast, "self.listener.close") or A.find_calls(n.ast, "self.listener.shutdown") or any(
+                        (A.call_name(x) or "").endswith(".close") and x.args and A.src(x.args[0]) == "self" for x in A.calls(n.ast))
+                    or any(isinstance(x.func, ast.Attribute) and x.func.attr == "close" and isinstance(x.func.value, ast.Call)
+                           and A.call_name(x.func.value) == "super" for x in A.calls(n.ast)))]
+                domc = Q.dominators(gcl)
+                okord = bool(loopn) and bool(shut) and any(s_.id in domc[loopn[0].id] for s_ in shut)
+                rep.ob("R17.1", "%s: self.%s is drained only after the listener has been shut" % (c.name, fld), okord,
+                       "the listener is closed (directly or through the base class) before the clients are terminated" if okord else
+                       "%s terminates the clients in self.%s before the listener is shut: a client that connects in between is accepted, "
+                       "registered and never terminated" % (f.qual.split(".", 3)[-1], fld), ctx.loc(loop))
             rep.ob("R17.1", "%s: clients tracked in self.%s are closed by close()" % (c.name, fld), f is not None,
                    "%s iterates self.%s and closes every member" % (f.qual.split(".", 3)[-1], fld) if f is not None else
                    "%s stores each client in self.%s (%s) but close() [%s] never closes the members of that container: clients "
